@@ -171,6 +171,7 @@ func (cc *LBClient) get() *lbClient {
 			minT = t
 		}
 	}
+	verifPoint("lb.chosen")
 	return minC
 }
 
